@@ -123,6 +123,44 @@ func checkDecode(c *vm.Ctx, r *vm.Rand, d *decodeCase, feats map[string]bool) {
 			c.Violation(sub+"/value-mismatch/"+firstFeature(diff), "decoded value differs from the document: "+diff, w())
 		}
 		c.Cover("decode." + tg.name + "." + fmtName)
+		// the same receiver again: a same-shaped document with shorter arrays, lists and strings, then the
+		// first document once more. Every key of the first document is present in the second, so after each
+		// step the receiver must hold exactly the document just decoded (no element left over from before).
+		{
+			d2 := &decodeCase{tree: nbtgen.Shrink(r, d.tree), name: d.name, network: d.network, trailer: d.trailer}
+			d2.doc = refnbt.Encode(d2.tree, d2.name, d2.network)
+			for step, dc := range []*decodeCase{d2, d} {
+				in := append(append([]byte{}, dc.doc...), dc.trailer...)
+				br := bytes.NewReader(in)
+				var err2 error
+				w2 := func() any {
+					m := dc.witness(tg.t.String(), "bytes.Reader")
+					m["receiver_previously_decoded_hex"] = vm.Hex(map[bool][]byte{true: d.doc, false: d2.doc}[step == 0])
+					return m
+				}
+				if c.Guard(sub+"/reused-receiver", w2, func() {
+					dec := nbt.NewDecoder(br)
+					dec.NetworkFormat(dc.network)
+					_, err2 = dec.Decode(rv.Addr().Interface())
+				}) {
+					break
+				}
+				c.Eval(0, false)
+				if err2 != nil {
+					c.Violation(sub+"/reused-receiver/error/"+vm.NormErr(err2.Error()), fmt.Sprintf("well-formed document rejected when decoded into a receiver that already held a same-shaped document: %v", err2), w2())
+					break
+				}
+				if got := len(in) - br.Len(); got != len(dc.doc) {
+					c.Violation(sub+"/reused-receiver/consumed", fmt.Sprintf("decoder consumed %d bytes, document is %d bytes", got, len(dc.doc)), w2())
+					break
+				}
+				if diff := gotypes.MatchGo(rv, dc.tree, "$"); diff != "" {
+					c.Violation(sub+"/reused-receiver/value-mismatch/"+firstFeature(diff), "receiver that already held a same-shaped document differs from the document just decoded: "+diff, w2())
+					break
+				}
+				c.Cover("decode.reused-receiver." + tg.name)
+			}
+		}
 	}
 	c.Cover("root." + tagClass(d.tree))
 	if len(d.trailer) > 0 {
